@@ -58,12 +58,13 @@ type Part struct {
 	Transitions int64               `json:"transitions"`
 	Traces      int64               `json:"traces"`
 	Flaky       []string            `json:"flaky"`
+	FlakyV      map[string]*Viol    `json:"flaky_v"` // first case per signature that did not reproduce when repeated at once
 	Facts       map[string][]string `json:"facts"` // values reported by workers under a key; the driver compares them
 	HarnessErr  []string            `json:"harness_err"`
 }
 
 func newPart() *Part {
-	return &Part{Counters: map[string]int64{}, Outcomes: map[string]int64{}, Viols: map[string]*Viol{}, Facts: map[string][]string{}}
+	return &Part{Counters: map[string]int64{}, Outcomes: map[string]int64{}, Viols: map[string]*Viol{}, Facts: map[string][]string{}, FlakyV: map[string]*Viol{}}
 }
 
 type Ctx struct {
@@ -165,6 +166,9 @@ func (c *Ctx) Violate(sig, what string, rank int64, replay map[string]any, reche
 		for i := 0; i < 3; i++ {
 			if !recheck() {
 				c.P.Flaky = append(c.P.Flaky, sig+": "+what)
+				if c.P.FlakyV[sig] == nil {
+					c.P.FlakyV[sig] = &Viol{Sig: sig, Count: 1, What: what, Replay: replay, Rank: rank}
+				}
 				return
 			}
 		}
@@ -364,6 +368,35 @@ func runDriver(c *Ctx) int {
 			fmt.Println("HARNESS-ERROR:", err)
 			return 2
 		}
+		if len(p.FlakyV) > 0 {
+			// A case violated the oracle but did not do so again when it was repeated at once in the same process.
+			// The harness makes no random choice, so either the program under test carries state from one line to
+			// the next (then the whole deterministic enumeration of this shard, run again in a fresh process, hits
+			// the same case in the same state and shows the same signature again) or something is really
+			// nondeterministic (then it does not).  Only the first is reported as a violation.
+			p2, err := rerunShard(c, i, n)
+			if err != nil {
+				fmt.Println("HARNESS-ERROR: re-running shard", i, ":", err)
+				return 2
+			}
+			p.Flaky = nil
+			for sig, v := range p.FlakyV {
+				if _, again := p2.FlakyV[sig]; again {
+					hs := "history-dependent:" + sig
+					v.Sig = hs
+					v.What = "the result for this case depends on what the process handled before (it violates the oracle when first met, not when repeated at once; a second complete run of shard " + fmt.Sprintf("%d/%d", i, n) + " in a fresh process showed the same): " + v.What
+					if v.Replay == nil {
+						v.Replay = map[string]any{}
+					}
+					v.Replay["history_dependent"] = fmt.Sprintf("re-run the check: the case is met in the same state by the deterministic enumeration of shard %d/%d", i, n)
+					p.Viols[hs] = v
+				} else if _, firm := p2.Viols[sig]; firm {
+					p.Viols[sig] = v
+				} else {
+					p.Flaky = append(p.Flaky, sig+": "+v.What)
+				}
+			}
+		}
 		mergePart(m, &p)
 		sb, _ := os.ReadFile(filepath.Join(c.Scratch, fmt.Sprintf("seen_%d.bin", i)))
 		for k := 0; k+8 <= len(sb); k += 8 {
@@ -383,6 +416,27 @@ func runDriver(c *Ctx) int {
 		def.Post(c, m)
 	}
 	return finish(c, def, m, time.Since(t0))
+}
+
+// rerunShard runs one shard worker again in a fresh process with its own scratch directory and returns its part.
+func rerunShard(c *Ctx, i, n int) (*Part, error) {
+	scr := filepath.Join(c.Scratch, "rerun")
+	os.MkdirAll(scr, 0o755)
+	cmd := exec.Command(c.Self)
+	cmd.SysProcAttr = &syscall.SysProcAttr{Pdeathsig: syscall.SIGKILL}
+	cmd.Env = append(os.Environ(), "VERIF_MODE=worker", "VERIF_SCRATCH="+scr, fmt.Sprintf("VERIF_SHARD=%d", i), fmt.Sprintf("VERIF_NSHARDS=%d", n), "GOMAXPROCS=2", "GOMEMLIMIT=3GiB")
+	if out, err := cmd.CombinedOutput(); err != nil {
+		return nil, fmt.Errorf("%v: %s", err, trunc(string(out), 2000))
+	}
+	b, err := os.ReadFile(filepath.Join(scr, fmt.Sprintf("part_%d.json", i)))
+	if err != nil {
+		return nil, err
+	}
+	var p Part
+	if err := json.Unmarshal(b, &p); err != nil {
+		return nil, err
+	}
+	return &p, nil
 }
 
 func mergePart(m, p *Part) {
